@@ -69,6 +69,9 @@ type Model struct {
 	// LoseNextResponse: the server's socket write fails for the answer to the next authenticated
 	// non-Allocate request of a UDP client; the request is then retransmitted (see do).
 	LoseNextResponse bool
+	// NextTID, when set, is the transaction id of the next authenticated request made through the
+	// model (once): histories use it to repeat an id another 5-tuple has used.
+	NextTID *[12]byte
 	// RelayMayRunOut: the server's relay address generator draws from a small range, a plain
 	// Allocate may legitimately be answered 508 (Insufficient Capacity).
 	RelayMayRunOut bool
